@@ -365,12 +365,120 @@ def h_one_instance_per_component(eng):
     eng.prove("instances.pending_symbol_modification_is_cleared_after_instantiation", z3.BoolVal(vals["c1"].fields["class_modification"] is None and vals["c2"].fields["class_modification"] is None))
 
 
+# ------------------------------------------------------------------------------------------------ class look-up rules
+def spec_lookup(scope, names):
+    """Modelica's look-up of a (dotted) class name from a scope, on the harness's object tree: the FIRST name is searched in the scope's
+    own classes, then its qualified imports, then its unqualified imports, then the enclosing scope (unless encapsulated); the REST of the
+    name is searched strictly inside what the first name denotes.  Returns the class object or None."""
+    def child(c, n):
+        d = c.fields["classes"]
+        return d.vals[d.keys.index(n)] if n in d.keys else None
+
+    def root_of(c):
+        while c.fields.get("parent") is not None:
+            c = c.fields["parent"]
+        return c
+
+    def full(start, path):
+        cur = start
+        for n in path:
+            cur = child(cur, n)
+            if cur is None:
+                return None
+        return cur
+
+    def first(sc, n):
+        c = child(sc, n)
+        if c is not None:
+            return c
+        imps = sc.fields["imports"]
+        if n in imps.keys:
+            return full(root_of(sc), sc.import_paths[n])
+        for pkg in getattr(sc, "wildcards", []):
+            c = full(root_of(sc), pkg + [n])
+            if c is not None:
+                return c
+        par = sc.fields.get("parent")
+        if par is not None and not sc.fields.get("encapsulated"):
+            return first(par, n)
+        return None
+    c = first(scope, names[0])
+    for n in names[1:]:
+        if c is None:
+            return None
+        c = child(c, n)
+    return c
+
+
+def h_lookup_rules(eng):
+    """ast.Class._find_class (real, recursive) against the look-up rules, for simple and DOTTED names through own classes, qualified
+    and unqualified imports and enclosing scopes; every query is made twice on the same tree (the unqualified-import branch memoises
+    its hit) and must give the same, specified class both times."""
+    A = setup(eng)
+    f = eng.find_function(AST, "Class._find_class")
+    add = eng.find_function(AST, "Class.add_class")
+    root = A.new("Tree", name="root")
+
+    def mk(name, typ, parent):
+        c = A.new("Class", name=name, type=typ)
+        eng.call(VBound(add, parent), [c], {})
+        return c
+    lib = mk("Lib", "package", root)
+    parts = mk("Parts", "package", lib)
+    tank = mk("Tank", "model", parts)
+    valve = mk("Valve", "model", tank)
+    seat = mk("Seat", "model", valve)
+    pump = mk("Pump", "model", parts)
+    other = mk("Other", "package", lib)
+    gauge = mk("Gauge", "model", other)
+    dial = mk("Dial", "model", gauge)
+    plants = mk("Plants", "package", lib)
+    drain = mk("Drain", "model", plants)
+    local = mk("Local", "model", plants)
+    inner = mk("Inner", "model", local)
+    top_valve = mk("Valve", "model", lib)         # the short name Valve denotes THIS class from inside Lib.Plants
+    star = A.new("ImportClause", components=VList([A.ref("Lib", child=VList([A.ref("Parts")]))]), unqualified=True)
+    put(eng, plants.fields["imports"], "*", star)
+    put(eng, plants.fields["imports"], "G", A.new("ImportClause", components=VList([A.ref("Lib", child=VList([A.ref("Other", child=VList([A.ref("Gauge")]))]))]), short_name="G"))
+    plants.wildcards = [["Lib", "Parts"]]
+    plants.import_paths = {"G": ["Lib", "Other", "Gauge"]}
+    for c in (root, lib, parts, tank, valve, seat, pump, other, gauge, dial, drain, local, inner, top_valve):
+        c.wildcards, c.import_paths = getattr(c, "wildcards", []), getattr(c, "import_paths", {})
+    QUERIES = [["Tank"], ["Tank", "Valve"], ["Tank", "Valve", "Seat"], ["Pump"], ["Valve"], ["Local"], ["Local", "Inner"], ["G"], ["G", "Dial"],
+               ["Lib", "Parts", "Tank", "Valve"], ["Parts", "Pump"], ["Other", "Gauge"], ["Missing"], ["Tank", "Missing"], ["Pump", "Valve"]]
+    q = QUERIES[eng.choice(len(QUERIES))]
+    scope = [plants, drain][eng.choice(2)]
+    eng.input("query", ".".join(q))
+    eng.input("from_scope", scope.fields["name"])
+
+    def ref_of(names):
+        r = None
+        for n in reversed(names):
+            r = A.ref(n, child=VList([r] if r is not None else []))
+        return r
+    want = spec_lookup(scope, q)
+    got = []
+    for attempt in range(2):
+        try:
+            got.append(eng.call(VBound(f, scope), [ref_of(q)], {}))
+        except PyRaise as e:
+            got.append(("raises", e.exc.cls.name if isinstance(e.exc, VObj) else "?"))
+    eng.cover("lookup.found" if want is not None else "lookup.missing")
+    def same(g):
+        return g is want if want is not None else (isinstance(g, tuple) and g[1] in ("ClassNotFoundError", "KeyError"))
+    label = lambda g: g.fields.get("name") if isinstance(g, VObj) else repr(g)
+    eng.prove("lookup.dotted_and_simple_names_denote_the_class_the_rules_select", z3.BoolVal(bool(same(got[0]))), got=label(got[0]),
+              want=want.fields["name"] if want is not None else "not found")
+    eng.prove("lookup.repeating_a_lookup_on_the_same_tree_gives_the_same_class", z3.BoolVal(bool(same(got[1]) and (got[0] is got[1] or got[0] == got[1]))),
+              first=label(got[0]), second=label(got[1]))
+
+
 HARNESSES = [("flatten_symbols: one level, recursive call under contract", h_flatten_symbols_step),
              ("ComponentRefFlattener.enterComponentRef", h_reference_renaming),
              ("flatten_extends: bases under contract", h_flatten_extends),
-             ("build_instance_tree: symbol loop", h_one_instance_per_component)]
+             ("build_instance_tree: symbol loop", h_one_instance_per_component), ("ast.Class._find_class: look-up rules", h_lookup_rules)]
 EXPECTED_COVER = {"step.nested", "step.top", "rename.depth1", "rename.depth2", "rename.depth3", "rename.found", "rename.missing", "rename.inside_modification",
-                  "extends.0_bases", "extends.1_bases", "extends.2_bases", "extends.own_redeclares", "instances.loop"}
+                  "extends.0_bases", "extends.1_bases", "extends.2_bases", "extends.own_redeclares", "instances.loop", "lookup.found", "lookup.missing"}
 BOUNDED = True
 LEVEL = "proof"
 TRUSTED = ["copy.deepcopy follows CPython's documented protocol (contracts/copy_model.py)", "Class.find_class returns a copy of the class the Modelica lookup rules select (lookup rules themselves are not under contract here; sampled by the bounded replay)",
